@@ -96,8 +96,11 @@ class DiscreteTimeInterpreter(TimeInterpreter):
         return
 
     def update_sampling_violation_counter(self, duration):
-        tolerance = self.sampling_period * self.sampling_tolerance
-        if duration < self.sampling_period - tolerance or duration > self.sampling_period + tolerance:
+        # the time-stamps are expressed in the default unit of the specification,
+        # the sampling period in its own unit
+        period = self.sampling_period * self.U[self.sampling_period_unit] / self.U[self.ast.unit]
+        tolerance = period * self.sampling_tolerance
+        if duration < period - tolerance or duration > period + tolerance:
             self.sampling_violation_counter = self.sampling_violation_counter + 1
 
     def time_unit_transformer(self, node):
